@@ -2313,3 +2313,20 @@ TWINS["C05_twin_initialised_flag_in_push"] = ("C05", [(S, "    memo_stack.append
 # C09.4 with the suffix comparison spelled as a loop (on top of benign/W5/2.diff)
 SEEDS["C09_loop_form_suffix_comparison_dropped"] = ("C09", [("@diff", "benign/W5/2.diff", None), (P, "                        if not has_structure(dummy_leaf):\n                            return False", "                        pass")], "C09.4")
 SEEDS["C09_loop_form_suffix_comparison_inverted"] = ("C09", [("@diff", "benign/W5/2.diff", None), (P, "                        if not has_structure(dummy_leaf):\n                            return False", "                        if has_structure(dummy_leaf):\n                            return False")], "ANALYSIS-ERROR")
+
+
+# batch 12 / 13 rules with a direct positive control (the others are replayed from seeded/<id>/patch.diff as indep_<id>)
+SEEDS["C02_defaults_not_applied"] = ("C02", [(D, """                bound = param_signature.bind(*args, **kwargs)
+                bound.apply_defaults()
+""", """                bound = param_signature.bind(*args, **kwargs)
+""")], "C02.9")
+SEEDS["C07_pop_raises_on_mismatch"] = ("C07", [(S, """def pop_shape_memo() -> None:
+    _shape_storage.memo_stack.pop()""", """def pop_shape_memo() -> None:
+    if not _shape_storage.memo_stack:
+        raise RuntimeError("stack of contexts out of sync")
+    _shape_storage.memo_stack.pop()""")], "C07.10")
+SEEDS["C20_category_dtypes_rebound_later"] = ("C20", [(A, "def _dtype_is_numpy_struct_array(dtype):", """def _add_dtype(category, name):
+    category.dtypes = category.dtypes + (name,)
+
+
+def _dtype_is_numpy_struct_array(dtype):""")], "C20.9")
